@@ -101,7 +101,7 @@ def iterator_source(b, v, depth=0):
     v = strip(v)
     while v is not None and depth < 10:
         depth += 1
-        if v.kind == 'ref':
+        if v.kind == 'ref' and not v.fields():
             v = strip(v.args[0])
             continue
         if v.kind == 'escaped':
@@ -183,11 +183,17 @@ def full_loop_reset(prog, fn, field):
                 if all(b.cfg.dominates(r.point[0], l) for l in latch) and all(b.cfg.dominates(n.point[0], x) for x in b.cfg.returns):
                     return r, ''
     for c in b.calls:
-        if c.callee_name() != 'iter_mut' or not c.args or vec_base_field(prog, c.args[0]) != (field,):
+        is_iter_mut = c.callee_name() == 'iter_mut'
+        # `for x in &mut self.<field>`: IntoIterator for &mut Vec is iter_mut
+        is_into_mut = c.callee_name() == 'into_iter' and c.args and (c.args[0].ty or '').startswith('&mut') and 'Vec<' in (c.args[0].ty or '')
+        if not (is_iter_mut or is_into_mut) or not c.args or vec_base_field(prog, c.args[0]) != (field,):
             continue
         it = c
         # the iterator must reach `next` unchanged (through into_iter, which is the identity for iterators)
-        nexts = [n for n in b.calls if n.callee_name() == 'next' and n.args and iterator_source(b, n.args[0]) is it]
+        def from_it(n, it=it, is_into_mut=is_into_mut):
+            src = iterator_source(b, n.args[0])
+            return src is it or (is_into_mut and src is strip(it.args[0]))
+        nexts = [n for n in b.calls if n.callee_name() == 'next' and n.args and from_it(n)]
         if len(nexts) != 1:
             return None, 'iterator over %s is not consumed by exactly one plain loop' % field
         n = nexts[0]
